@@ -305,7 +305,7 @@ package controller
 //@ spec annotated(n *v1.Node) bool = has(n.Annotations, NodeEscalatorIgnoreAnnotation) && n.Annotations[NodeEscalatorIgnoreAnnotation] != ""
 //@ func safeFromDeletion(node) (why, ok)
 //@   requires node != nil
-//@   ensures [C10] ok <==> annotated(node)
+//@   ensures ok <==> annotated(node)
 //@ loop #0
 //@   invariant #seen[NodeEscalatorIgnoreAnnotation] ==> node.Annotations[NodeEscalatorIgnoreAnnotation] == ""
 
@@ -346,3 +346,57 @@ package controller
 //@   invariant nodesOK(toBeDeleted) && (base(toBeDeleted) == nil || birth(base(toBeDeleted)) >= entry(now)) && Jlen == old(Jlen) && clock >= old(clock) && durCacheOK(optsOf(opts.nodeGroup))
 //@   invariant dry(c, opts.nodeGroup) ==> len(toBeDeleted) == 0
 //@   invariant forall j :: 0 <= j && j < len(toBeDeleted) ==> (exists i :: 0 <= i && i < len(opts.taintedNodes) && toBeDeleted[j] == opts.taintedNodes[i] && reapable(opts.taintedNodes[i], opts.nodeGroup, clock))
+
+// forceReapable(n, g): the force-removal rule of C01 (emptiness judged on the group's node-info map)
+//@ spec forceReapable(n *v1.Node, g *NodeGroupState) bool = k8s.nodeEmptyIn(n, g.NodeInfoMap)
+
+//@ func (*Controller).TryRemoveForceTaintedNodes(c, opts) (n, err)
+//@   requires c != nil && opts.nodeGroup != nil && c.Client != nil && c.cloudProvider != nil && nodesOK(opts.forceTaintedNodes)
+//@   requires k8s.infoMapOK(opts.nodeGroup.NodeInfoMap)
+//@   modifies Jlen, Jkind, Jname, Jnode, Jok
+//@   ensures Jlen >= old(Jlen) && jprefix(old(Jlen))
+//@   ensures [C11] dry(c, opts.nodeGroup) ==> Jlen == old(Jlen)
+//@   ensures [C01,C09,C10,C12] forall k :: old(Jlen) <= k && k < Jlen ==> (Jkind[k] == C_DELNODE || Jkind[k] == K_DELETE) && (exists i :: 0 <= i && i < len(opts.forceTaintedNodes) && opts.forceTaintedNodes[i].Name == Jname[k] && forceReapable(opts.forceTaintedNodes[i], opts.nodeGroup))
+//@   ensures [C19] forall k :: old(Jlen) <= k && k < Jlen && Jkind[k] == K_DELETE ==> (forall j :: old(Jlen) <= j && j < k && Jkind[j] == C_DELNODE ==> Jok[j])
+//@ loop #0
+//@   invariant nodesOK(toBeDeleted) && (base(toBeDeleted) == nil || birth(base(toBeDeleted)) >= entry(now)) && Jlen == old(Jlen)
+//@   invariant dry(c, opts.nodeGroup) ==> len(toBeDeleted) == 0
+//@   invariant forall j :: 0 <= j && j < len(toBeDeleted) ==> (exists i :: 0 <= i && i < len(opts.forceTaintedNodes) && toBeDeleted[j] == opts.forceTaintedNodes[i] && forceReapable(opts.forceTaintedNodes[i], opts.nodeGroup))
+
+// ScaleDown = reap expired tainted nodes, then taint. A not-in-group error from the reaper stops it.
+//@ func (*Controller).ScaleDown(c, opts) (n, err)
+//@   requires c != nil && opts.nodeGroup != nil && c.Client != nil && c.cloudProvider != nil && nodesOK(opts.taintedNodes) && nodesOK(opts.untaintedNodes) && opts.nodesDelta >= 0
+//@   requires k8s.infoMapOK(opts.nodeGroup.NodeInfoMap) && durCacheOK(optsOf(opts.nodeGroup))
+//@   modifies Jlen, Jkind, Jname, Jnode, Jok, Jesc, clock, nTaintOK, nUntaintOK, getSeen, opts.nodeGroup.taintTracker, elems(opts.nodeGroup.taintTracker), opts.nodeGroup.Opts.softDeleteGracePeriodDuration, opts.nodeGroup.Opts.hardDeleteGracePeriodDuration
+//@   ensures Jlen >= old(Jlen) && jprefix(old(Jlen)) && clock >= old(clock) && durCacheOK(optsOf(opts.nodeGroup))
+//@   ensures [C11] dry(c, opts.nodeGroup) ==> Jlen == old(Jlen)
+//@   ensures [C03,C06] nUntaintOK == old(nUntaintOK) && old(nTaintOK) <= nTaintOK && nTaintOK - old(nTaintOK) <= max(0, len(opts.untaintedNodes) - opts.nodeGroup.Opts.MinNodes) && nTaintOK - old(nTaintOK) <= opts.nodesDelta
+//@   ensures [C01,C09,C10,C12] forall k :: old(Jlen) <= k && k < Jlen ==> (Jkind[k] == K_UPDATE && namedIn(Jname[k], opts.untaintedNodes)) || ((Jkind[k] == C_DELNODE || Jkind[k] == K_DELETE) && (exists i :: 0 <= i && i < len(opts.taintedNodes) && opts.taintedNodes[i].Name == Jname[k] && reapable(opts.taintedNodes[i], opts.nodeGroup, clock)))
+
+// ---------------------------------------------------------------- controller.go: classification
+
+//@ spec unsched(n *v1.Node) bool = n.Spec.Unschedulable
+//@ spec clsU(n *v1.Node) bool = !unsched(n) && !k8s.hasEsc(n) && !k8s.hasForce(n)
+//@ spec clsT(n *v1.Node) bool = !unsched(n) && k8s.hasEsc(n) && !k8s.hasForce(n)
+//@ spec clsF(n *v1.Node) bool = !unsched(n) && k8s.hasForce(n)
+// every element of L is one of the first k elements of all
+//@ spec subOf(L []*v1.Node, all []*v1.Node, k int) bool = forall j :: 0 <= j && j < len(L) ==> L[j] != nil && (exists i :: 0 <= i && i < k && L[j] == all[i])
+//@ spec ownBuf(L []*v1.Node, n int) bool = cap(L) == n && off(L) == 0 && len(L) <= n
+
+// filterNodes. C09 (outside dry mode): cordoned nodes go to the cordoned list only, whatever taints they
+// carry; the other three lists hold exactly the uncordoned nodes that are force-tainted / tainted / neither.
+//@ func (*Controller).filterNodes(c, nodeGroup, allNodes) (untaintedNodes, taintedNodes, forceTaintedNodes, cordonedNodes)
+//@   requires c != nil && nodeGroup != nil && nodesOK(allNodes)
+//@   ensures subOf(untaintedNodes, allNodes, len(allNodes)) && subOf(taintedNodes, allNodes, len(allNodes)) && subOf(forceTaintedNodes, allNodes, len(allNodes)) && subOf(cordonedNodes, allNodes, len(allNodes))
+//@   ensures fresh(base(untaintedNodes)) && fresh(base(taintedNodes)) && fresh(base(forceTaintedNodes)) && fresh(base(cordonedNodes))
+//@   ensures len(untaintedNodes) + len(taintedNodes) + len(forceTaintedNodes) + len(cordonedNodes) == len(allNodes)
+//@   ensures [C09] !dry(c, nodeGroup) ==> (forall j :: 0 <= j && j < len(untaintedNodes) ==> clsU(untaintedNodes[j])) && (forall j :: 0 <= j && j < len(taintedNodes) ==> clsT(taintedNodes[j])) && (forall j :: 0 <= j && j < len(forceTaintedNodes) ==> clsF(forceTaintedNodes[j])) && (forall j :: 0 <= j && j < len(cordonedNodes) ==> unsched(cordonedNodes[j]))
+//@   ensures [C09] !dry(c, nodeGroup) ==> (forall i :: 0 <= i && i < len(allNodes) && clsU(allNodes[i]) ==> (exists j :: 0 <= j && j < len(untaintedNodes) && untaintedNodes[j] == allNodes[i]))
+//@ loop #0
+//@   modifies elems(untaintedNodes), elems(taintedNodes), elems(forceTaintedNodes), elems(cordonedNodes)
+//@   invariant base(untaintedNodes) == entry(base(untaintedNodes)) && base(taintedNodes) == entry(base(taintedNodes)) && base(forceTaintedNodes) == entry(base(forceTaintedNodes)) && base(cordonedNodes) == entry(base(cordonedNodes))
+//@   invariant ownBuf(untaintedNodes, len(allNodes)) && ownBuf(taintedNodes, len(allNodes)) && ownBuf(forceTaintedNodes, len(allNodes)) && ownBuf(cordonedNodes, len(allNodes))
+//@   invariant len(untaintedNodes) + len(taintedNodes) + len(forceTaintedNodes) + len(cordonedNodes) == #i
+//@   invariant subOf(untaintedNodes, allNodes, #i) && subOf(taintedNodes, allNodes, #i) && subOf(forceTaintedNodes, allNodes, #i) && subOf(cordonedNodes, allNodes, #i)
+//@   invariant !dry(c, nodeGroup) ==> (forall j :: 0 <= j && j < len(untaintedNodes) ==> clsU(untaintedNodes[j])) && (forall j :: 0 <= j && j < len(taintedNodes) ==> clsT(taintedNodes[j])) && (forall j :: 0 <= j && j < len(forceTaintedNodes) ==> clsF(forceTaintedNodes[j])) && (forall j :: 0 <= j && j < len(cordonedNodes) ==> unsched(cordonedNodes[j]))
+//@   invariant !dry(c, nodeGroup) ==> (forall i :: 0 <= i && i < #i && clsU(allNodes[i]) ==> (exists j :: 0 <= j && j < len(untaintedNodes) && untaintedNodes[j] == allNodes[i]))
